@@ -21,7 +21,36 @@ pub struct Job {
 /// v2: one generated job in five carries a command-line define (pseudo-file `@defines`, one `name=value` per line):
 /// a constant `zdef` with a literal initialiser is appended to the root file, emitted by a data directive and
 /// overridden from the command line
+/// v4: constants whose value comes from a data file (statically known by the analysis, yet not computable before the
+/// files are read), used by an instruction, by data directives, and not at all
+pub fn gen_datafile_constants(t: &mut Tape) -> Job {
+    let raw: Vec<u8> = (0..4).map(|_| t.draw(256) as u8).collect();
+    let hex: String = (0..2 * t.urange(1, 4)).map(|_| *t.pick(&['0', '1', '7', '9', 'a', 'c', 'f'])).collect();
+    let bin: String = (0..8).map(|_| if t.flip() { '1' } else { '0' }).collect();
+    let mut src = String::from("#ruledef\n{\n    ldq {v: u32} => 0x10 @ v\n    ldh {v} => 0x11 @ v`8\n}\n");
+    let early = t.flip();
+    let decl = "magicq = incbin(\"d.bin\")\nhxq = inchexstr(\"t.txt\") + 1\nunusedq = incbinstr(\"b.txt\")\nslq = incbin(\"d.bin\")[15:8]\n";
+    if early {
+        src.push_str(decl);
+    }
+    for _ in 0..t.urange(1, 4) {
+        src.push_str(*t.pick(&["ldq magicq\n", "#d32 magicq\n", "ldh hxq\n", "#d8 slq\n", "lblq:\n", "#d8 hxq`8\n"]));
+    }
+    if !early {
+        src.push_str(decl);
+    }
+    Job {
+        origin: "datafile-constants".into(),
+        files: vec![("main.asm".into(), src.into_bytes()), ("d.bin".into(), raw), ("t.txt".into(), hex.into_bytes()), ("b.txt".into(), bin.into_bytes())],
+        root: "main.asm".into(),
+        generated: false,
+    }
+}
+
 pub fn gen_job(t: &mut Tape) -> Job {
+    if crate::engine::gen_version() >= 4 && t.chance(1, 12) {
+        return gen_datafile_constants(t);
+    }
     let mut job = gen_job_plain(t);
     if crate::engine::gen_version() >= 2 && job.generated && t.chance(1, 5) {
         let root = job.root.clone();
